@@ -169,6 +169,7 @@ def standard_items(run_seed, tier, n_gen_quick, n_gen_thorough, bench_quick=15, 
         rng = random.Random(run_seed)
         rng.shuffle(b)
         items += b[:bench_quick] if quick else b
+    items += C.fixed_templates()
     items += C.generated(run_seed, n_gen_quick if quick else n_gen_thorough, profile=profile,
                          maxdeg=maxdeg if quick else maxdeg + 1, ngoals=ngoals if quick else ngoals + 3)
     return items
